@@ -376,6 +376,10 @@ class Statechart:
             if self.root:
                 raise StatechartError(
                     'Root already defined, {} must declare an existing parent state'.format(state))
+
+            # An history state must be the child of a CompoundState
+            if isinstance(state, HistoryStateMixin):
+                raise StatechartError('{} cannot be used as a root state'.format(state))
         else:
             parent_state = self.state_for(parent)
 
